@@ -1,6 +1,8 @@
 //! Per-property case lists.
 use crate::gen::*;
 use crate::util::*;
+#[allow(unused_imports)]
+use proguard::*;
 
 pub struct Budget {
     pub mappings: usize,
@@ -124,6 +126,140 @@ pub fn cases(prop: &str, seed: u64, tier: &str) -> Vec<String> {
             for (_, bytes) in corpus_files() {
                 push_mapping(&mut out, &bytes);
                 out.push("D".into());
+            }
+        }
+        "C05" => return cases_c05(seed, tier),
+        "C11" => {
+            let b = budget(tier, 25, 600);
+            for i in 0..b.mappings {
+                let o = GenOpts { dom: Dom::Representable, max_classes: if b.thorough && i % 7 == 0 { 40 } else { 4 }, noise: false };
+                let m = gen_mapping(&mut r, &o);
+                if !representable(m.as_bytes()) {
+                    continue;
+                }
+                let Some(full) = write_cache(m.as_bytes()) else { continue };
+                if !b.thorough && full.len() > 2048 {
+                    continue;
+                }
+                // reference: the full file and its answers
+                let mut qs = Vec::new();
+                emit_cache_queries(&mut qs, m.as_bytes(), &mut r, 3);
+                out.push(format!("X {} =full", hex(&full)));
+                out.extend(qs.iter().cloned());
+                // every strict prefix (what a crash during writing can leave behind)
+                for n in 0..full.len() {
+                    let pre = &full[..n];
+                    let accepted = guarded(|| {
+                        let a = AlignedBuf::new(pre);
+                        proguard::ProguardCache::parse(a.bytes()).is_ok()
+                    })
+                    .unwrap_or(true);
+                    out.push(format!("X {} =prefix", hex(pre)));
+                    if accepted {
+                        out.extend(qs.iter().cloned());
+                    }
+                }
+                // every single-field edit of the 24-byte header
+                let rd = |i: usize| u32::from_le_bytes([full[i], full[i + 1], full[i + 2], full[i + 3]]);
+                for field in 0..6 {
+                    let cur = rd(4 * field);
+                    for v in [0u32, cur.wrapping_sub(1), cur.wrapping_add(1), cur.wrapping_add(1000), 1 << 31, u32::MAX, cur.swap_bytes()] {
+                        if v == cur {
+                            continue;
+                        }
+                        let mut e = full.clone();
+                        e[4 * field..4 * field + 4].copy_from_slice(&v.to_le_bytes());
+                        let tag = match field {
+                            0 if v == cur.swap_bytes() => " =expect:WrongEndianness",
+                            0 => " =expect:WrongFormat",
+                            1 => " =expect:WrongVersion",
+                            _ => "",
+                        };
+                        out.push(format!("X {}{}", hex(&e), tag));
+                        out.extend(qs.iter().take(4).cloned());
+                    }
+                }
+            }
+        }
+        "C12" => {
+            let b = budget(tier, 400, 20000);
+            for i in 0..b.mappings {
+                let m = gen_mapping(&mut r, &REP);
+                let Some(full) = write_cache(m.as_bytes()) else { continue };
+                let buf = if i % 9 == 0 {
+                    // random bytes behind a valid header
+                    let mut v = full[..24.min(full.len())].to_vec();
+                    for _ in 0..r.below(200) {
+                        v.push(r.below(256) as u8);
+                    }
+                    v
+                } else {
+                    corrupt(&mut r, &full)
+                };
+                out.push(format!("X {}", hex(&buf)));
+                emit_cache_queries(&mut out, m.as_bytes(), &mut r, 3);
+            }
+        }
+        "C13" => {
+            let b = budget(tier, 250, 10000);
+            for i in 0..b.mappings {
+                let bytes = match i % 6 {
+                    0 | 1 => gen_mapping(&mut r, &WILD).into_bytes(),
+                    2 | 3 => { let g = gen_mapping(&mut r, &WILD); mutate(&mut r, &g) }
+                    4 => soup(&mut r),
+                    _ => raw_bytes(&mut r),
+                };
+                push_mapping(&mut out, &bytes);
+                out.push("I".into());
+                out.push("D".into());
+                out.push("W".into());
+                let q = QuerySel { class: true, method: true, lines: true, params: true, all_lines: false, both_files: false };
+                let mut qs = Vec::new();
+                emit_queries(&mut qs, &bytes, &mut r, q);
+                if qs.len() > 150 {
+                    let step = qs.len() / 150 + 1;
+                    qs = qs.into_iter().step_by(step).collect();
+                }
+                out.extend(qs);
+                emit_text_queries(&mut out, &bytes, &mut r, 2, 1, 2);
+            }
+        }
+        "C07" => {
+            let b = budget(tier, 250, 8000);
+            for i in 0..b.mappings {
+                let m = gen_mapping(&mut r, &REP);
+                if !representable(m.as_bytes()) {
+                    continue;
+                }
+                push_mapping(&mut out, m.as_bytes());
+                emit_text_queries(&mut out, m.as_bytes(), &mut r, 12, 0, 0);
+                if i % 10 == 0 {
+                    // a mapping that knows none of the trace's classes: output = input up to terminators
+                    push_mapping(&mut out, b"zz.Q -> zz.q:\n    void f() -> g\n");
+                    emit_text_queries(&mut out, m.as_bytes(), &mut r, 4, 0, 0);
+                }
+            }
+        }
+        "C08" => {
+            let b = budget(tier, 250, 8000);
+            for _ in 0..b.mappings {
+                let m = gen_mapping(&mut r, &REP);
+                if !representable(m.as_bytes()) {
+                    continue;
+                }
+                push_mapping(&mut out, m.as_bytes());
+                emit_text_queries(&mut out, m.as_bytes(), &mut r, 0, 12, 0);
+            }
+        }
+        "C16" => {
+            let b = budget(tier, 250, 8000);
+            for _ in 0..b.mappings {
+                let m = gen_mapping(&mut r, &REP);
+                if !representable(m.as_bytes()) {
+                    continue;
+                }
+                push_mapping(&mut out, m.as_bytes());
+                emit_text_queries(&mut out, m.as_bytes(), &mut r, 0, 0, 25);
             }
         }
         _ => {}
@@ -286,4 +422,168 @@ pub fn emit_text_queries(out: &mut Vec<String>, mapping: &[u8], r: &mut Rng, n_t
         let s = crate::trace::gen_signature(r, &u);
         out.push(format!("G {}", hex(s.as_bytes())));
     }
+}
+
+// ---------------------------------------------------------------- C05: lines from the grammar
+const IDENT: &[&str] = &["a", "foo", "Foo$Bar", "<init>", "<clinit>", "a-b", "x1", "é", "Üx", "lambda$x$0", "access$100", "_", "A9", "ö$1"];
+const TYIDENT: &[&str] = &["void", "int", "java.lang.String", "a.b[]", "boolean", "int[][]", "é.X", "a$b", "java.util.Map$Entry", "x-y"];
+const PKG: &[&str] = &["com.example", "a.b", "é", "org.x.y", "a"];
+
+fn dec40(r: &mut Rng) -> u64 {
+    match r.below(8) {
+        0 => 0,
+        1 => 1,
+        2 => (1u64 << 40) - 1,
+        3 => (1u64 << 32) + r.below(5) as u64,
+        _ => r.below(3000) as u64,
+    }
+}
+
+/// one grammar line, its expected canonical record, and its kind
+fn grammar_line(r: &mut Rng) -> (String, String) {
+    match r.below(10) {
+        0 => {
+            // key/value header
+            let key = *r.pick(&["compiler", "compiler_version", "min_api", "pg_map_id", "common_typos_disable", "x-y"]);
+            if r.chance(1, 3) {
+                (format!("# {}", key), format!("H|{}|~", hex(key.as_bytes())))
+            } else {
+                let v = *r.pick(&["R8", "8.3.37", "24", "abc def", "a:b", "é"]);
+                (format!("# {}: {}", key, v), format!("H|{}|{}", hex(key.as_bytes()), hex(v.as_bytes())))
+            }
+        }
+        1 => {
+            let f = *r.pick(&["Foo.kt", "R8$$SyntheticClass", "a b.java", "é.kt", ""]);
+            (format!("# {{\"id\":\"sourceFile\",\"fileName\":\"{}\"}}", f), format!("H|{}|{}", hex(b"sourceFile"), hex(f.as_bytes())))
+        }
+        2 | 3 => {
+            let o = format!("{}.{}", r.pick(PKG), r.pick(IDENT));
+            let b = format!("{}.{}", r.pick(&["a", "a.b", "é"]), r.pick(&["a", "b", "c$d", "ö"]));
+            (format!("{} -> {}:", o, b), format!("C|{}|{}", hex(o.as_bytes()), hex(b.as_bytes())))
+        }
+        4 => {
+            let (t, n, b) = (*r.pick(TYIDENT), *r.pick(IDENT), *r.pick(IDENT));
+            (format!("    {} {} -> {}", t, n, b), format!("F|{}|{}|{}", hex(t.as_bytes()), hex(n.as_bytes()), hex(b.as_bytes())))
+        }
+        _ => {
+            let (t, n, b) = (*r.pick(TYIDENT), *r.pick(IDENT), *r.pick(IDENT));
+            let args = *r.pick(&["", "int", "int,java.lang.String", "a.b[],é", "java.util.Map$Entry"]);
+            let cls = if r.chance(1, 3) { Some(format!("{}.{}", r.pick(PKG), r.pick(&["Outer", "Outer$Inner", "É"]))) } else { None };
+            let lines = if r.chance(2, 3) { Some((dec40(r), dec40(r))) } else { None };
+            let ol = match r.below(3) {
+                0 => (None, None),
+                1 => (Some(dec40(r)), None),
+                _ => (Some(dec40(r)), Some(dec40(r))),
+            };
+            let mut s = String::from("    ");
+            if let Some((a, b)) = lines {
+                s.push_str(&format!("{}:{}:", a, b));
+            }
+            s.push_str(t);
+            s.push(' ');
+            if let Some(c) = &cls {
+                s.push_str(c);
+                s.push('.');
+            }
+            s.push_str(n);
+            s.push_str(&format!("({})", args));
+            if let Some(x) = ol.0 {
+                s.push_str(&format!(":{}", x));
+            }
+            if let Some(x) = ol.1 {
+                s.push_str(&format!(":{}", x));
+            }
+            s.push_str(" -> ");
+            s.push_str(b);
+            let lm = match lines {
+                Some((a, e)) if a > 0 && e > 0 => format!(
+                    "{},{},{},{}",
+                    a,
+                    e,
+                    ol.0.map_or("~".into(), |x| x.to_string()),
+                    ol.1.map_or("~".into(), |x| x.to_string())
+                ),
+                _ => "~".into(),
+            };
+            let exp = format!(
+                "M|{}|{}|{}|{}|{}|{}",
+                hex(t.as_bytes()),
+                hex(n.as_bytes()),
+                hex(b.as_bytes()),
+                hex(args.as_bytes()),
+                cls.as_ref().map_or("~".into(), |c| hex(c.as_bytes())),
+                lm
+            );
+            (s, exp)
+        }
+    }
+}
+
+/// the documented malformations of a well-formed class / member line
+fn malform(r: &mut Rng, line: &str) -> Option<String> {
+    if line.starts_with('#') {
+        return None;
+    }
+    if !line.starts_with("    ") {
+        // class line
+        return Some(match r.below(3) {
+            0 => line.trim_end_matches(':').to_string(),        // missing colon
+            1 => line.replacen(" -> ", "->", 1),                // unspaced arrow
+            _ => line.replacen(" -> ", " ", 1),                 // missing arrow
+        });
+    }
+    let body = &line[4..];
+    Some(match r.below(5) {
+        0 => format!("  {}", body),                             // two spaces
+        1 => format!("     {}", body).replacen("     ", "   ", 1), // three spaces
+        2 => body.replacen(" -> ", "->", 1).to_string().replacen("", "    ", 1), // unspaced arrow
+        3 => {
+            // start line without end line
+            let rest = body.trim_start_matches(|c: char| c.is_ascii_digit() || c == ':');
+            format!("    7:{}", rest)
+        }
+        _ => {
+            // missing return type: drop the type token of a method line
+            let rest = body.trim_start_matches(|c: char| c.is_ascii_digit() || c == ':');
+            match rest.split_once(' ') {
+                Some((_, tail)) if tail.contains('(') => format!("    {}", tail),
+                _ => return None,
+            }
+        }
+    })
+}
+
+pub fn cases_c05(seed: u64, tier: &str) -> Vec<String> {
+    let mut r = Rng(seed ^ 0xc05);
+    let b = budget(tier, 4000, 150000);
+    let mut out = Vec::new();
+    for i in 0..b.mappings {
+        let (line, exp) = grammar_line(&mut r);
+        let term = *r.pick(&["", "\n", "\r\n", "\n\n"]);
+        out.push(format!("R {} ={}", hex(format!("{}{}", line, term).as_bytes()), exp));
+        if i % 3 == 0 {
+            if let Some(bad) = malform(&mut r, &line) {
+                // an error carries the offending line (the input has no terminator here)
+                out.push(format!("R {} =E|{}", hex(bad.as_bytes()), hex(bad.as_bytes())));
+            }
+        }
+        if i % 4 == 0 {
+            // as part of a file, with neighbours
+            let (l2, _) = grammar_line(&mut r);
+            let (l3, _) = grammar_line(&mut r);
+            let nl = *r.pick(&["\n", "\r\n", "\r"]);
+            let file = format!("{}{}{}{}{}", l2, nl, line, nl, l3);
+            out.push(format!("M {}", hex(file.as_bytes())));
+            out.push(format!("I ={}", exp));
+        }
+    }
+    // every line of the real-world corpus
+    for (_, bytes) in corpus_files() {
+        let text = String::from_utf8_lossy(&bytes).to_string();
+        let cap = if b.thorough { usize::MAX } else { 3000 };
+        for l in text.lines().take(cap) {
+            out.push(format!("R {}", hex(l.as_bytes())));
+        }
+    }
+    out
 }
